@@ -709,6 +709,14 @@ theorem C15_driver_crosscheck (root : Nat) (h : List EOp) :
     specOK (runET root h).2 (runET root h).1.kinds = true :=
   runET_specOK root h
 
+/-- the direct call on ANY state (harness op `rawrank`, after the private writes of `rawset` / `rawswap` made an array no
+    history reaches): a permutation of the array, ranked w.r.t. the strategy in force -/
+theorem C15_direct_rank (strat : Strategy) (st : State) :
+    ((rawRank strat st).kinds.map (fun k => (k.cpuset, k.forced, k.infos))).Perm
+        (st.kinds.map (fun k => (k.cpuset, k.forced, k.infos))) ∧
+    Ranked strat (rawRank strat st).kinds :=
+  ⟨rank_sameCore strat st.kinds, rawRank_ranked strat st⟩
+
 /-! non-vacuity of the A7 theorems -/
 -- `C15_rank_consistent_with_forced`: an array that is NOT reachable (overlapping cpusets, stale efficiencies) meets the
 -- hypotheses and is reordered
@@ -759,5 +767,11 @@ example :
     (runTE 0xff true h).st.kinds.map (fun k => (k.cpuset, k.eff)) = [(0xf0, 0), (0x0f, 1)] ∧
     (traceTE (tinit 0xff true) h).map (·.1) = [.none, .forced, .coretype] ∧
     (runET 0xff (traceTE (tinit 0xff true) h)).2 = .forced := by decide
+-- private writes: a swapped array with a negative forced efficiency (ranked by its uint64_t cast: after the others)
+example :
+    let st := run .forced 0xff [.register (some 0x0f) 1 [] 0, .register (some 0xf0) 2 [] 0]
+    let st2 := (rawSet (rawSwap st 0 1).1 0 (-7) 99).1
+    st2.kinds.map (fun k => (k.cpuset, k.eff, k.forced)) = [(0xf0, 99, -7), (0x0f, 0, 1)] ∧
+    (rawRank .forced st2).kinds.map (fun k => (k.cpuset, k.eff, k.forced)) = [(0x0f, 0, 1), (0xf0, 1, -7)] := by decide
 
 end Hw.Props.C15
